@@ -577,3 +577,7 @@ mod tests {
         assert_eq!(AesSivCmac512::try_from(slice).unwrap().key_bytes(), slice);
     }
 }
+
+#[cfg(all(test, pendulum_project_ntpd_rs_verif))]
+#[path = "/verif/harness/ntp-proto/hook_packet__crypto.rs"]
+mod verif_hook;
